@@ -303,7 +303,9 @@ EXTRA_NOTES = {
            "under write-back a row is the backing word and is the logical word wherever the block is not resident.",
     "C17": " Props/C17Tables.v: every register row denotes the current register value, the memory table has exactly the written words, ascending, each row "
            "denoting the current backing word (RISC-V and TOY; the TOY pc row shows the address of the NEXT fetch).",
-    "C19": " Props/C19Lex.v + Model/ToyLex.v: the TOY tokenizer is inside the model (domain: every Python string) — layout, comments, mnemonic case and number "
+    "C19": " Props/C19Spelling.v: at LOAD level — toy_load_text gives the same result (error incl. line, or memory image and state) for texts that differ only in number spelling "
+           "(decimal/hex, leading zeros, hex-digit case; the one textual limit, int()'s 4300 characters on decimals, is part of the relation), mnemonic case, layout and comments. "
+           "Props/C19Lex.v + Model/ToyLex.v: the TOY tokenizer is inside the model (domain: every Python string) — layout, comments, mnemonic case and number "
            "bases do not change the token lines (proved), and load_program(text) is compared with the model's lexer+assembler on the same text (requests 90/91).",
     "C14": " Props/C14Lex.v closes the loop through the modelled grammar: lex_of_printed (the lexer reads every printed instruction back as its own tokens, any immediate), "
            "print_lex_assemble (rv_load_text of a printed listing, after any comment/blank lines, yields exactly that listing at the same addresses).",
